@@ -31,4 +31,10 @@ CHECKS = {
     text="All histories of save(kind, n, tasks, overwrite=True) up to the depth on one shared file-name base (plain and residual lists, Field and MultiField samples); in every reached state loading with 1..3(4) tasks under every SimComm interleaving returns exactly the samples of the last save, in order, on the shareRange ranks (contents carry the save version, so stale samples are visible), and overwrite=False refuses without touching files. Statistics: all 780 value sequences (length<=4, 5 values, real and complex) through average/sample_stat on 1..3 tasks and HDF5 export read back with h5py.",
     note="Simulated communicator; ranks share one directory; numpy's convention for the variance of complex data.",
     ref="DESIGN.md section 5 (C26)"),
+ "C22": dict(
+    engine="simcomm+case-runner", level="exploration",
+    technique="complete configuration product x task counts run on the real code under a controlled communicator (per-rank interpreter state emulated), bit-compared with the single-process run on every rank; deviation-bounded exhaustive schedule exploration for the smallest configuration",
+    text="SampledKLEnergy (samples, value, gradient, metric, sample_stat, average, moved expansion point) and full optimize_kl runs for the product n_samples{0..3} x mirror x constants x point estimates x geoVI with 2..4 (thorough 6) tasks incl. tasks without samples: every rank's result is bit-identical to comm=None with the same seed. All schedules with <=1 (thorough <=2) deviations from the default under rendezvous and buffered sends for the smallest configuration; C23 decides the confluence of the message pattern exhaustively.",
+    note="libmpi cannot be loaded here: simulated communicator, real transport not exercised; sanity_checks=False (the check insists on a real mpi4py communicator).",
+    ref="DESIGN.md section 3 (C22)"),
 }
